@@ -21,6 +21,7 @@ Three bindings per run:
 Development switches (not used by MANIFEST commands):
   VERIF_C20_SELFTEST=expected|log|hop|chain   corrupt one expected outcome / one logged field / one expected hop
                                         state / one logged hop state: the run must end with exit 1.
+  VERIF_C20_ONLY=observations           run only the thorough tier's "named deviations" section.
   VERIF_TLC_WORKERS=n                   TLC workers (default 8).
   VERIF_C20_CACHE=dir                   keep / reuse what Tenant.tla and Propagation.tla printed (they do not depend
                                         on the code under test): speeds up mutation testing. Never set by MANIFEST commands.
@@ -44,10 +45,16 @@ META = {
                   "propagation graph is replayed through the real inject/extract functions, AuthenticateUser and the four gRPC "
                   "interceptors with 6 families of concrete ids; seeded byte-level mutations of valid multi-tenant headers recorded from "
                   "the real code are recomputed by the specification, and seeded random chains of up to 24 hops recorded from the real code "
-                  "are accepted hop by hop by the specification's own actions.",
+                  "are accepted hop by hop by the specification's own actions. Wire level: every transition of the wire configuration "
+                  "(ids \"\", two plain ids, a NUL/CRLF id, a high-byte id, an id with an outer blank; <= 3 hops; foreign multi-value "
+                  "requests) runs through a real net/http client -> httptest.Server -> AuthenticateUser and a real gRPC client/server pair "
+                  "over bufconn with the four interceptors; the transports' refusals are a named outcome and UnchangedUpToOWS / "
+                  "AlteredOnlyByHTTPTrim / TransportRefusalIsNotDelivery are decided by TLC.",
     "level_note": "Exhaustive within the stated bounds only: an input whose misbehaviour needs >= 5 (thorough: >= 6) specific bytes outside "
-                  "the families is reached only by the seeded mutation traces (no coverage-guided fuzzing). HTTP and gRPC hops are "
-                  "in-process (http.Header / metadata.MD objects, no wire encoding). Error classes are recognised by sentinel errors "
+                  "the families is reached only by the seeded mutation traces (no coverage-guided fuzzing). Wire-level hops use two "
+                  "concrete instantiations per id class; HTTP's stripping of blanks around a header value is modelled as the named "
+                  "deviation HTTPTrim (strict Unchanged fails for such ids: MC_prop_wire_strict.cfg). The other hops are "
+                  "in-process (http.Header / metadata.MD objects). Error classes are recognised by sentinel errors "
                   "and, for the unexported ones, by their messages. Trusted: TLC, the Json module, the byte-array encoding.",
     "technique": "TLA+ specifications (Tenant.tla, Propagation.tla) model-checked by TLC; TLC-generated cases and behaviours replayed into the "
                  "real code; observations and hop chains recorded from the real code validated by TLC (TenantTrace.tla, PropagationTrace.tla)",
@@ -129,7 +136,7 @@ def absorb_tenant_replay(ctx, res, r, cfg):
         incon("universe is vacuous for outcome classes %s" % missing)
     # ... and every generating action of Tenant.tla produced cases
     fams = (res.get("extra") or {}).get("tenant_cases_by_family", {})
-    need = ["edge", "short", "byte", "runs", "parts", "meta", "metalen"] + ([] if ctx.tier == "quick" else ["parts2"])
+    need = ["edge", "short", "byte", "runs", "parts", "meta", "metalen"] + ([] if ctx.tier == "quick" else ["parts2", "shortx"])
     missing = [f for f in need if not fams.get(f)]
     if missing:
         incon("no cases from the families %s" % missing)
@@ -144,6 +151,19 @@ def absorb_propagation(ctx, res, r, cfg):
         if not acts.get(a):
             incon("no behaviour exercised %s" % a)
     ctx.absorb(res, "propagation replay " + cfg)
+
+
+def absorb_wire(ctx, res, r):
+    if res.get("cases") != r.emitted:
+        incon("TestReplayWire replayed %s of %d behaviours" % (res.get("cases"), r.emitted))
+    ex = res.get("extra") or {}
+    for a in ("HTTPWire", "HTTPWireIn", "GRPCWire", "GRPCWireIn"):
+        if not (ex.get("wire_hops_by_action") or {}).get(a):
+            incon("no wire behaviour exercised %s" % a)
+    for o in ("delivered", "transport", "no_id", "different_id", "too_many_ids"):
+        if not (ex.get("wire_outcomes") or {}).get(o):
+            incon("no wire hop ended in outcome %s" % o)
+    ctx.absorb(res, "wire replay MC_prop_wire.cfg")
 
 
 def validate_trace(ctx, res, trace):
@@ -212,6 +232,33 @@ def validate_ptrace(ctx, res, ptrace):
     ctx.extra["propagation_chains_validated"] = ctx.extra.get("propagation_chains_validated", 0) + nch
 
 
+def observations(ctx):
+    """Thorough tier: the two named deviations. The strict statements are EXPECTED to fail on the specification
+    (TLC's counterexample is the documentation); what is bound to the code is the deviating behaviour itself."""
+    # HTTP strips blanks around a header value: strict Unchanged fails on the wire configuration
+    r = ctx.tlc("tenant", "Propagation", cfg="MC_prop_wire_strict.cfg", workers=1, timeout=600, count=False)
+    if r.timed_out or r.error or r.violated != "Unchanged":
+        incon("MC_prop_wire_strict.cfg: expected TLC to refute Unchanged, got violated=%s error=%s" % (r.violated, (r.error or "")[:200]))
+    # Metadata.Set/With are unvalidated: the invariant documented on the type holds with validated arguments only
+    r = ctx.tlc("tenant", "MetadataMisuse", cfg="MC_metamisuse_checked.cfg", workers=2, timeout=600)
+    ctx.require_tlc_ok(r, "MetadataMisuse MC_metamisuse_checked.cfg")
+    r = ctx.tlc("tenant", "MetadataMisuse", cfg="MC_metamisuse.cfg", workers=1, timeout=600, count=False)
+    if r.timed_out or r.error or r.violated != "TypeInvariant":
+        incon("MC_metamisuse.cfg: expected TLC to refute TypeInvariant, got violated=%s error=%s" % (r.violated, (r.error or "")[:200]))
+    r = ctx.tlc("tenant", "MetadataMisuse", cfg="MC_metamisuse_emit.cfg", workers=1, timeout=600)
+    ctx.require_tlc_ok(r, "MetadataMisuse MC_metamisuse_emit.cfg")
+    out = harness(ctx, [("TestReplayMetaMisuse", "metamisuse_replay")], {"VERIF_IN_MISUSE": r.out_path}, timeout=600)
+    res = out["metamisuse_replay"]
+    if res.get("cases") != r.emitted or r.emitted == 0:
+        incon("TestReplayMetaMisuse replayed %s of %d transitions" % (res.get("cases"), r.emitted))
+    ctx.absorb(res, "metadata misuse replay")
+    ctx.extra["observations"] = [
+        "HTTP hop: an org id with leading/trailing blanks arrives trimmed (strict Unchanged refuted by TLC on MC_prop_wire_strict.cfg; "
+        "the trimmed delivery is what the real net/http stack does, see wire replay)",
+        "tenant.Metadata.Set/With do not validate: %d of %d replayed Set calls produce metadata ParseMetadata rejects"
+        % ((res.get("extra") or {}).get("metadata_set_results_breaking_the_documented_invariant", 0), r.emitted)]
+
+
 def replay(ctx):
     """bin/check C20 --replay replays/C20-xxxx.json : re-run exactly the recorded disagreement."""
     rep = json.load(open(ctx.replay))
@@ -219,8 +266,11 @@ def replay(ctx):
     if "behaviour" in case:
         p = ctx.path("replay_behaviour.ndjson")
         open(p, "w").write(json.dumps(case["behaviour"]) + "\n")
-        out = harness(ctx, [("TestReplayPropagation", "propagation_replay")], {"VERIF_IN_PROP": p}, timeout=600)
-        ctx.absorb(out["propagation_replay"], "replay")
+        wire = any("Wire" in h.get("a", "") for h in case["behaviour"].get("hist", []))
+        test, kind, var = (("TestReplayWire", "wire_replay", "VERIF_IN_WIRE") if wire
+                           else ("TestReplayPropagation", "propagation_replay", "VERIF_IN_PROP"))
+        out = harness(ctx, [(test, kind)], {var: p}, timeout=600)
+        ctx.absorb(out[kind], "replay")
     elif "in" in case:
         p = ctx.path("replay_inputs.ndjson")
         open(p, "w").write(json.dumps({"has": bool(case.get("has", True)), "in": case["in"]}) + "\n")
@@ -248,6 +298,9 @@ def run(ctx):
         return "model_checking"
     ctx.exhaustive = True
     quick = ctx.tier == "quick"
+    if os.environ.get("VERIF_C20_ONLY") == "observations":      # development: just that section
+        observations(ctx)
+        return "model_checking"
 
     # 1. the specifications decide the property on their universes and print the expected outcomes
     tcfg = "MC_quick.cfg" if quick else "MC_thorough.cfg"
@@ -260,11 +313,16 @@ def run(ctx):
     if rp.emitted == 0:
         incon("Propagation.tla emitted no behaviours")
 
+    rw = gen_tlc(ctx, "Propagation", "MC_prop_wire.cfg", workers=1, timeout=900)
+    ctx.require_tlc_ok(rw, "Propagation MC_prop_wire.cfg")
+    if rw.emitted == 0:
+        incon("Propagation.tla (wire) emitted no behaviours")
+
     # 2. the real code: replay both, record the mutation trace (one go test invocation)
     n = 1000 if quick else 10000
     trace = ctx.path("tenant_trace.ndjson")
     ptrace = ctx.path("propagation_trace.ndjson")
-    env = {"VERIF_IN_TENANT": rt.out_path, "VERIF_IN_PROP": rp.out_path, "VERIF_TRACE": trace, "VERIF_N": n,
+    env = {"VERIF_IN_TENANT": rt.out_path, "VERIF_IN_PROP": rp.out_path, "VERIF_IN_WIRE": rw.out_path, "VERIF_TRACE": trace, "VERIF_N": n,
            "VERIF_PTRACE": ptrace, "VERIF_NCHAINS": 300 if quick else 5000}
     if selftest == "chain":
         env["VERIF_CORRUPT_PTRACE"] = 1 + (ctx.seed * 13) % 300
@@ -275,9 +333,11 @@ def run(ctx):
     if selftest == "hop":
         env["VERIF_CORRUPT_PROP"] = 1 + (ctx.seed * 31) % rp.emitted
     out = harness(ctx, [("TestReplayTenant", "tenant_replay"), ("TestRecordTenant", "tenant_record"),
-                        ("TestReplayPropagation", "propagation_replay"), ("TestRecordPropagation", "propagation_record")], env)
+                        ("TestReplayPropagation", "propagation_replay"), ("TestRecordPropagation", "propagation_record"),
+                        ("TestReplayWire", "wire_replay")], env)
     absorb_tenant_replay(ctx, out["tenant_replay"], rt, tcfg)
     absorb_propagation(ctx, out["propagation_replay"], rp, "MC_prop.cfg")
+    absorb_wire(ctx, out["wire_replay"], rw)
 
     # 3. the specifications validate what was recorded
     validate_ptrace(ctx, out["propagation_record"], ptrace)
@@ -289,4 +349,5 @@ def run(ctx):
         ctx.require_tlc_ok(rq, "Propagation MC_prop_paths.cfg")
         out = harness(ctx, [("TestReplayPropagation", "propagation_replay")], {"VERIF_IN_PROP": rq.out_path})
         absorb_propagation(ctx, out["propagation_replay"], rq, "MC_prop_paths.cfg")
+        observations(ctx)
     return "model_checking"
